@@ -7,15 +7,24 @@
    acts segment-wise (C16_replace_segmentwise); text outside blocks, letter counter.
    FULL as well: the whole pipeline on a template with several blocks of several kinds (C16_engine_is_ref,
    C16_engine_is_ref_table): all 15 expander stages in source order, then user tags / FOR / write.
-   STILL PARTIAL: the nested per-state / per-event / per-transition blocks with their alternative text are not part of the
-   template syntax of Spec/RefExpand16.v (modelled in Model/EngineSM.v, tied by differential execution, observed against the
-   Python reference only); signature / member / documentation / attribute tags are not modelled.  block_wf keeps three
+   FULL as well: the nested per-state / per-event / per-transition blocks with their alternative text are part of the template
+   syntax of Spec/RefExpand16.v (TransBlock / titem / eitem; reference ref_trans): innerexpand_transitionsperstate on the
+   rendered block is the reference for every transition structure (C16_nested_block_is_ref), the block is an item of the
+   whole-template theorem, and the dictionary of dictionaries the table model builds is the declarative structure of the
+   table (C16_model_transitions).  Restrictions of the nested grammar (computed by in_grammar16): no state tag inside a
+   per-event block, at most one conditional (action / guard / next-state) tag on a line and no state / event tag on such a
+   line, the alternative text closed.
+   STILL PARTIAL: signature / member / documentation / attribute tags are not modelled; the shipped TEMPLATEStateMachine.py /
+   TEMPLATEInternals.cs are outside the grammar, as whole files for that reason and their transition blocks alone because of
+   text with a literal '<' or '>' ("-> None:", "<class '", "/// <summary>", "Exit<<<<STATENAMEIFNEXTSTATE>>>>") -- every other
+   line of the two shipped transition blocks is inside; for these files the engine is tied to the generators' models by
+   execution (C08 / C10).  block_wf keeps three
    conditions that are evaluated per (template, table): substituted names carry no '<' '>', no expanded copy is whitespace
    only, none contains the name of an unmodelled tag. *)
 From Coq Require Import String List Bool Arith.
 From KV Require Import Lib.Str Lib.StrOps Lib.ODict Gen.Tags Gen.Pipeline Model.Engine Model.EngineSM Model.EngineDomain Spec.RefExpand
                        Model.EngineDomain16 Spec.RefExpand16 Lib.TableDef Model.TTable
-                       Proofs.EnginePipe Proofs.EngineC16 Proofs.EngineRepl Proofs.EngineBlock Proofs.EngineTT Proofs.EngineWhole16.
+                       Proofs.EnginePipe Proofs.EngineC16 Proofs.EngineRepl Proofs.EngineBlock Proofs.EngineTT Proofs.EngineTps Proofs.EngineTrans Proofs.EngineWhole16.
 Import ListNotations.
 Open Scope string_scope.
 Open Scope list_scope.
@@ -112,8 +121,29 @@ Print Assumptions C16_stage_in_source.
 Theorem C16_model_first_appearance : forall tt structs protos msgs m,
   tt_model tt structs protos msgs = Some m ->
   elements_of_model m = elements_of (table_of tt) structs protos msgs.
-Proof. exact model_elements. Qed.
+Proof. exact model_elements_full. Qed.
 Print Assumptions C16_model_first_appearance.
+
+(* ... in particular transitionsperstate, the dictionary of dictionaries set_transitions_per_state fills row by row and then
+   closes with the target-only states: it is the declarative structure of the table (source states in first-appearance order,
+   then the states that are only targets; per state its events in first-appearance order; per (state, event) the rows in
+   table order, each as the table of the name tags it defines). *)
+Theorem C16_model_transitions : forall tt structs protos msgs m,
+  tt_model tt structs protos msgs = Some m -> sm_tps m = tps_of (table_of tt).
+Proof. exact model_tps. Qed.
+Print Assumptions C16_model_transitions.
+
+(* The nested blocks: per state > per event > per transition.  For EVERY transition structure (states with their events with
+   their transitions, each transition the table of the name tags it defines) and every body of the grammar,
+   innerexpand_transitionsperstate returns the reference: the per-state lines once per state, inside them the per-event
+   lines once per event of the state, inside those the per-transition lines once per transition, in order; a line that
+   mentions a name the transition lacks (no guard / action / target) is dropped, or replaced by the alternative text given
+   in the tag at the line's indentation. *)
+Theorem C16_nested_block_is_ref : forall tps body,
+  forallb titem_ok body = true -> tps_wf tps = true ->
+  inner_tps tps (flat_map render_titem body) None = Some (ref_trans tps body).
+Proof. exact inner_tps_is_ref. Qed.
+Print Assumptions C16_nested_block_is_ref.
 
 (* THE WHOLE TEMPLATE.  For every state-machine model m, every first-filter dictionary over the first-filter tags and every
    template of the grammar (text lines and any number of per-element / per-signature blocks of any kinds, in any order) that
@@ -137,7 +167,19 @@ Definition ex16 : template16 :=
   [Text "// guards first"; Block KGuard "    " "  " [[Lit "g "; Tag "GUARDNAME" None; Lit " "; Tag "NUM" None]];
    Text "	x"; SigBlock "" "" [[Tag "actionName" None; Lit "("; Tag "EVENTNAME" None; Lit ")"]];
    Block KState "" "" [[Lit "  "; Tag "ALPH" None; Lit " "; Tag "STATE_NAME" None]; [Lit "  -"]];
-   Block KGuard "	" "" [[Tag "guardName" None]]; Text "// end"].
+   Block KGuard "	" "" [[Tag "guardName" None]];
+   TransBlock "    " "    "
+     [TLine [Lit "    def process"; Tag "STATENAME" None; Lit "(self, event):"];
+      TEvent "        " "        "
+        [ELine [Lit "        if isinstance(event, "; Tag "EVENTNAME" None; Lit "):"];
+         EGuard "            " "            "
+           [[Lit "            if self.context."; Tag "GUARDNAME" (Some "if True:"); Lit "(event):"];
+            [Lit "                self.context.On"; Tag "STATENAMEIFNEXTSTATE" None; Lit "Exit(event)"];
+            [Lit "                self.context."; Tag "ACTIONNAME" None; Lit "(event)"];
+            [Lit "                self.currentState = c"; Tag "NEXTSTATENAME" None];
+            [Lit "                return"]]];
+      TLine [Lit "        self.context.NoTransition(event) # "; Tag "stateName" None]];
+   Text "// end"].
 Example C16_block_is_ref_nonvacuous :
   let body := [[Lit "  "; Tag "NUM" None; Tag "ALPH" None; Lit " "; Tag "STATENAME" None; Lit " "; Tag "stateName" None; Lit " "; Tag "STATE_NAME" None]] in
   forallb (body_line_ok (keys_of KState)) body = true
@@ -166,6 +208,7 @@ Print Assumptions C16_nonvacuous.
 Example C16_engine_is_ref_nonvacuous :
   in_grammar16 ex16 = true /\ wf16_rows cd_rows [] [] [] ex16 = true
   /\ option_map (fun m => engine16 m [] ex16) (tt_model cd_rows [] [] []) = Some (Some (ref16_rows cd_rows [] [] [] ex16))
-  /\ String.length (ref16_rows cd_rows [] [] [] ex16) = 267.
-Proof. split; [|split; [|split]]; vm_compute; reflexivity. Qed.
+  /\ option_map (fun m => list_eqb_tps (sm_tps m) (tps_of (table_of cd_rows))) (tt_model cd_rows [] [] []) = Some true
+  /\ Nat.ltb 900 (String.length (ref16_rows cd_rows [] [] [] ex16)) = true.
+Proof. split; [|split; [|split; [|split]]]; vm_compute; reflexivity. Qed.
 Print Assumptions C16_engine_is_ref_nonvacuous.
